@@ -53,6 +53,42 @@ def sh(cmd, timeout=None, cwd=None, mem_gb=None, env=None):
     return rc, out.decode('utf-8', 'replace'), time.time() - t0, ru.ru_maxrss
 
 
+def race(cmds, timeout=None, mem_gb=None):
+    """run several solver back ends on the same query in parallel; the first one that ends with a verdict wins, the others are killed"""
+    def pre():
+        os.setsid()
+        if mem_gb:
+            b = int(mem_gb * (1 << 30)); resource.setrlimit(resource.RLIMIT_AS, (b, b))
+    import tempfile
+    t0 = time.time(); procs = []
+    for c in cmds:
+        f = tempfile.TemporaryFile()
+        procs.append((subprocess.Popen(c, stdout=f, stderr=subprocess.STDOUT, preexec_fn=pre), f, c))
+    winner = None; done = set()
+    while winner is None and len(done) < len(procs) and (timeout is None or time.time() - t0 < timeout):
+        for i, (p, f, c) in enumerate(procs):
+            if i in done: continue
+            rc = p.poll()
+            if rc is not None:
+                done.add(i)
+                if rc in (0, 10):
+                    winner = i; break
+        time.sleep(0.2)
+    for i, (p, f, c) in enumerate(procs):
+        if p.poll() is None:
+            try: os.killpg(p.pid, 9)
+            except Exception: pass
+            p.wait()
+    pick = winner if winner is not None else (sorted(done)[0] if done else 0)
+    p, f, c = procs[pick]
+    f.seek(0); out = f.read().decode('utf-8', 'replace')
+    rc = p.returncode if (winner is not None or pick in done) else -9
+    if winner is None and len(done) < len(procs): rc = -9
+    for _, ff, _ in procs: ff.close()
+    ru = resource.getrusage(resource.RUSAGE_CHILDREN)
+    return rc, out, time.time() - t0, ru.ru_maxrss, c
+
+
 class Inconclusive(Exception):
     pass
 
@@ -324,7 +360,13 @@ def run_query(q, tier, seed, prop_id):
         scale = 1; hunt = False
         for attempt in range(3):
             cmd = cbmc_cmd(q, gb, tier, scale=scale)
-            rc, out, wall, rss = sh(cmd, timeout=timeout, mem_gb=mem)
+            if q.solver is None and not os.environ.get('VERIF_NO_RACE'):
+                # portfolio: cadical and minisat raced (run times of either are heavy-tailed on these instances: 8 s vs > 240 s observed both ways)
+                alt = [x for x in cmd if x not in ('--sat-solver', 'cadical')]
+                rc, out, wall, rss, cmd = race([cmd, alt], timeout=timeout, mem_gb=mem)
+            else:
+                rc, out, wall, rss = sh(cmd, timeout=timeout, mem_gb=mem)
+            r['backend'] = 'minisat' if '--sat-solver' not in cmd else cmd[cmd.index('--sat-solver') + 1]
             open(os.path.join(qd, 'cbmc.log'), 'w').write(' '.join(cmd) + '\n' + out)
             p = parse_cbmc(out)
             r.update({'vars': p['vars'], 'clauses': p['clauses'], 'solver_s': p['solver_s'], 'symex_s': p['symex_s'], 'steps': p['steps'],
@@ -333,6 +375,8 @@ def run_query(q, tier, seed, prop_id):
                 r['detail'] = f'timeout after {timeout}s' if rc == -9 else 'cbmc produced no verdict (rc=%d): %s' % (rc, out[-300:])
                 # bug-hunting fallback (under-approximation: repo-side loops cut after 1 iteration, no unwinding assertions):
                 # can only turn "inconclusive" into a natively confirmed violation, never into "holds"
+                if os.environ.get('VERIF_NO_HUNT'):
+                    return r
                 hunt = True
                 cmd = cbmc_cmd(q, gb, tier, hunt=True)
                 rc, out, wall, rss = sh(cmd, timeout=timeout, mem_gb=mem)
@@ -357,7 +401,7 @@ def run_query(q, tier, seed, prop_id):
                 return r
             real_fails = {k: v for k, v in fails.items() if k not in unwind_fails}
             r['properties_checked'] = len(p['props'])
-            r['witness_reached'] = bool(wit) and all(p['props'][k][1] == 'FAILURE' for k in wit)
+            r['witness_reached'] = bool(wit) and any(p['props'][k][1] == 'FAILURE' for k in wit)
             if real_fails:
                 break
             if unwind_fails and attempt < 2:
@@ -429,7 +473,7 @@ def main():
     ap.add_argument('prop')
     ap.add_argument('--tier', default=os.environ.get('VERIF_TIER', 'quick'))
     ap.add_argument('--only', default=None)
-    ap.add_argument('--jobs', type=int, default=int(os.environ.get('VERIF_JOBS', '14')))
+    ap.add_argument('--jobs', type=int, default=int(os.environ.get('VERIF_JOBS', '8')))
     ap.add_argument('--no-evidence', action='store_true')
     a = ap.parse_args()
     if a.prop == 'setup':
